@@ -133,17 +133,26 @@ pub fn c_payload(m: u64) -> u64 {
 
 pub fn script(m: u64, k: u64, broken: bool) -> String {
     let c0 = c_payload(m);
-    let c1 = c0 + 1;
+    let (c1, c2, c3) = (c0 + 1, c0 + 2, c0 + 3);
     let b = if broken { "let q: bool = 3;" } else { "" };
     format!(
-        r#"const C: Tr = mk({c0});
+        r#"record Rec{k} {{ n: u64, t: Tr, s: String }}
+const C: Tr = mk({c0});
 const D: Tr = C;
 const S: String = "v{k}";
 const L: List[u64] = [{k}, {k}];
 const LT: List[Tr] = [mk({c1})];
+const O: Tr? = Some(mk({c2}));
+const RC: Rec{k} = Rec{k} {{ n: {k}, t: mk({c3}), s: "r{k}" }};
 fn helper_{k}(x: u64) -> u64 {{ x * {k} }}
-fn f(x: u64) -> u64 {{ {b} log(x); let part_{k} = helper_{k}(x); part_{k} + val(C) + val(D) + val(K) + cap() + L.len() + LT.len() }}
-fn s(a: String) -> String {{ a + S }}
+fn opt_{k}() -> u64 {{
+    match O {{
+        Some(v) => val(v),
+        None => 0,
+    }}
+}}
+fn f(x: u64) -> u64 {{ {b} log(x); let part_{k} = helper_{k}(x); let rc = RC; part_{k} + val(C) + val(D) + val(K) + cap() + L.len() + LT.len() + opt_{k}() + rc.n + val(rc.t) }}
+fn s(a: String) -> String {{ let rc = RC; a + S + rc.s }}
 fn t(v: Tr) -> Tr {{ if val(v) > 5 {{ C }} else {{ v }} }}
 "#
     )
@@ -235,10 +244,12 @@ fn check_not_before(site: &str) {
         }
         let c = live.get(&c_payload(m)).copied().unwrap_or(0);
         let c1 = live.get(&(c_payload(m) + 1)).copied().unwrap_or(0);
-        if c < 2 || c1 < 1 {
+        let c2 = live.get(&(c_payload(m) + 2)).copied().unwrap_or(0);
+        let c3 = live.get(&(c_payload(m) + 3)).copied().unwrap_or(0);
+        if c < 2 || c1 < 1 || c2 < 1 || c3 < 1 {
             viol::record(
                 "released-too-early",
-                format!("at {site}: module m{m} (version {}) still has a holder (package alive: {}, live handles: {}) but its script constants are gone: live C/D instances {c} (need 2), live LT element {c1} (need 1)", x.k, x.pkg, x.handles),
+                format!("at {site}: module m{m} (version {}) still has a holder (package alive: {}, live handles: {}) but its script constants are gone: live C/D instances {c} (need 2), LT element {c1}, optional constant O {c2}, record constant RC.t {c3} (need 1 each)", x.k, x.pkg, x.handles),
             );
             return;
         }
@@ -371,7 +382,23 @@ fn exec(op: &LifeOp) {
         sched::set_label(label(op));
     }
     check_not_before("operation start");
-    let done = exec_inner(op);
+    // a panic inside roto code must become the run's verdict at once: unwinding drops objects
+    // behind the model's back, and everything observed afterwards would be misleading
+    let done = match std::panic::catch_unwind(std::panic::AssertUnwindSafe(|| exec_inner(op))) {
+        Ok(d) => d,
+        Err(e) => {
+            let _mg = alloc::ModeGuard::new(alloc::MODE_PLAIN);
+            let msg = if let Some(s) = e.downcast_ref::<&str>() {
+                s.to_string()
+            } else if let Some(s) = e.downcast_ref::<String>() {
+                s.clone()
+            } else {
+                "panic".to_string()
+            };
+            viol::record("panic", format!("operation {} panicked: {}", label(op), msg.chars().take(300).collect::<String>()));
+            false
+        }
+    };
     if done {
         P_EXECUTED.fetch_add(1, SeqCst);
     } else {
@@ -453,7 +480,7 @@ fn exec_inner(op: &LifeOp) -> bool {
                 Err(_) => {
                     let (pl, _) = alloc::module_pages(*m as u32);
                     let live = tracked::live_by_payload();
-                    if pl != 0 || live.contains_key(&c_payload(*m)) || live.contains_key(&(c_payload(*m) + 1)) {
+                    if pl != 0 || (0..4).any(|j| live.contains_key(&(c_payload(*m) + j))) {
                         viol::record("failed-reload-left-state", format!("failed compilation of m{m} left {pl} live page blocks / tracked constants behind"));
                     }
                 }
@@ -533,8 +560,8 @@ fn exec_inner(op: &LifeOp) -> bool {
                         _ => unreachable!(),
                     };
                     let log = take_hostlog();
-                    let want = x.wrapping_mul(k) + 2 * c + (200 + rid) + (100 + rid) + 2 + 1;
-                    let want_log: Vec<(&str, u64)> = vec![("log", *x), ("val", c), ("val", c), ("val", 200 + rid), ("cap", 100 + rid)];
+                    let want = x.wrapping_mul(k) + 2 * c + (200 + rid) + (100 + rid) + 2 + 1 + (c + 2) + k + (c + 3);
+                    let want_log: Vec<(&str, u64)> = vec![("log", *x), ("val", c), ("val", c), ("val", 200 + rid), ("cap", 100 + rid), ("val", c + 2), ("val", c + 3)];
                     if got != want || log != want_log {
                         viol::record(
                             "wrong-result",
@@ -546,7 +573,7 @@ fn exec_inner(op: &LifeOp) -> bool {
                     let got = f.call(RotoString::from("ab"));
                     let log = take_hostlog();
                     let s: &str = got.as_ref();
-                    if s != format!("abv{k}") || !log.is_empty() {
+                    if s != format!("abv{k}r{k}") || !log.is_empty() {
                         viol::record("wrong-result", format!("s(\"ab\") of module m{} (version {k}) returned {s:?} with host calls {log:?}", e.m));
                     }
                 }
@@ -830,9 +857,6 @@ pub fn execute(d: &LifeDesc, keep_trace: bool) -> RunResult {
             },
             bodies,
         );
-    }
-    for (t, msg) in &out.panics {
-        viol::record("panic", format!("thread {t} panicked: {msg}"));
     }
     // phase 3: whatever is left is dropped here, in a seeded order
     {
